@@ -51,6 +51,10 @@ type TypeSet map[string]Type
 const EIP712Domain = "EIP712Domain"
 
 func EncodeTypedDataV4(ctx context.Context, payload *TypedData) (encoded ethtypes.HexBytes0xPrefix, err error) {
+	if payload == nil {
+		// e.g. the JSON document "null" unmarshalled into a *TypedData
+		return nil, i18n.NewError(ctx, signermsgs.MsgEIP712PrimaryTypeRequired)
+	}
 	// Add empty EIP712Domain type specification if missing
 	if payload.Types == nil {
 		payload.Types = TypeSet{}
